@@ -20,7 +20,7 @@ RULE = ('every (structure, dtype, provenance, copy operation) inside the bounds 
         'non-trivial = interior rank>1 and a mode>1')
 ASSUMPTIONS = ['CPU only: to(device)/cpu() are exercised with the CPU device']
 PROV = ['leaf', 'ttsvd', 'ttsvd_trunc', 'slice', 't', 'conj', 'detach', 'round', 'sum']
-OPS = ['saveload', 'clone', 'detach', 'to_f64', 'to_f32', 'to_c128', 'cpu', 'numpy', 'to_none']
+OPS = ['saveload', 'clone', 'detach', 'to_f64', 'to_f32', 'to_c128', 'to_c64', 'cpu', 'numpy', 'to_none']
 _TMP = None
 
 
@@ -192,6 +192,20 @@ def run_case(c):
     # the source object must be untouched
     if any(not torch.equal(a.detach(), b) for a, b in zip(x.cores, cores0)):
         viol.append(V(site + '.source_changed', ''))
+    # ... and stay untouched when the copy is modified in place afterwards (metadata lists must not be shared either)
+    if isinstance(y, TT) and not viol:
+        k = len(y.cores) - 1
+        shp = list(y.cores[k].shape)
+        shp[1] += 1
+        _, e2 = call(y.set_core, k, torch.ones(shp, dtype=y.cores[k].dtype))
+        if e2 is None:
+            meta_now = (bool(x.is_ttm), list(x.M) if x.is_ttm else [], list(x.N), [int(r) for r in x.R])
+            shape_now = list(getattr(x, 'shape', []))
+            want_shape = [(m, n) for m, n in zip(meta0[1], meta0[2])] if meta0[0] else list(meta0[2])
+            if meta_now != meta0 or shape_now != want_shape:
+                viol.append(V(site + '.copy_shares_metadata_with_source', 'after set_core on the copy the source reports %s (was %s)' % (meta_now, meta0)))
+            if any(not torch.equal(a.detach(), b) for a, b in zip(x.cores, cores0)):
+                viol.append(V(site + '.copy_shares_cores_with_source', 'set_core on the copy changed the source'))
     return Outcome(key, nt, op, violations=viol)
 
 
